@@ -2,5 +2,6 @@ SPECIFICATION Spec
 CONSTANTS
   Tier = "quick"
   Broken = "none"
+  Emit = FALSE
 INVARIANTS ShownKeepNumbers NothingElseShown EdgeWeights NonResidualKeepsWeight Accounting
 CHECK_DEADLOCK FALSE
